@@ -196,6 +196,28 @@ var constructs = []construct{
 		}
 		return fmt.Sprintf("%s if 1 < 2 { for fj = 0; fj < 1; fj += 1 { if 2 > 1 { %s } } } en(%d)", f.pre, inner, id), true
 	}},
+	{"conc-inside-for", func(f faultKind, id int) (string, bool) {
+		if f.stmt != "" {
+			return fmt.Sprintf("for fj = 0; fj < 2; fj += 1 { conc { zq = 1 %s } } en(%d)", f.stmt, id), true
+		}
+		e, _, ok := numOrBool(f)
+		return fmt.Sprintf("%s for fj = 0; fj < 2; fj += 1 { conc { zq = %s zr = 2 } } en(%d)", f.pre, e, id), ok
+	}},
+	{"forrange-body-expression", func(f faultKind, id int) (string, bool) {
+		e, _, ok := numOrBool(f)
+		return fmt.Sprintf("%s forRange fk := FVS { if fk == 2 { zq = %s } } en(%d)", f.pre, e, id), ok
+	}},
+	{"else-branch", func(f faultKind, id int) (string, bool) {
+		inner := f.stmt
+		if inner == "" {
+			e, _, ok := numOrBool(f)
+			if !ok {
+				return "", false
+			}
+			inner = "zq = " + e
+		}
+		return fmt.Sprintf("%s if 1 > 2 { zq = 0 } else if 3 > 4 { zq = 1 } else { %s } en(%d)", f.pre, inner, id), true
+	}},
 	{"statement", func(f faultKind, id int) (string, bool) {
 		return fmt.Sprintf("%s en(%d)", f.stmt, id), f.stmt != ""
 	}},
